@@ -14,7 +14,7 @@ from cpython.datetime cimport datetime, timedelta
 import cython
 
 
-cpdef int project_date_to_idx(
+cpdef long long project_date_to_idx(
     object date,
     object start,
     int granularity
@@ -31,7 +31,7 @@ cpdef int project_date_to_idx(
         Slot index
     """
     cdef double diff_seconds
-    cdef int idx
+    cdef long long idx  # dates thousands of years away are more than 2^31 one-minute slots away
 
     if start is None:
         return 0
@@ -42,12 +42,12 @@ cpdef int project_date_to_idx(
     except AttributeError:
         diff_seconds = <double>(date - start)
 
-    idx = <int>(diff_seconds / <double>granularity)
+    idx = <long long>(diff_seconds / <double>granularity)
     return idx
 
 
 cpdef object project_idx_to_date(
-    int idx,
+    long long idx,
     object start,
     int granularity
 ):
@@ -67,7 +67,7 @@ cpdef object project_idx_to_date(
     if start is None:
         return None
 
-    seconds = <long long>idx * granularity
+    seconds = idx * granularity
     return start + timedelta(seconds=seconds)
 
 
